@@ -132,7 +132,12 @@ def m_oneshot_channel(ex, a, t):
     tx = OneshotTx(); rx = OneshotRx(tx); return Tuple([tx, rx])
 class OneshotRx:
     def __init__(self, tx): self.tx = tx
-    def model_drop(self, ex): pass
+    def model_drop(self, ex): self.tx.rx_dropped = True
+    def poll(self, ex):
+        tx = self.tx
+        if tx.sent is not None: return Enum('Poll', 'Ready', [Enum('Result', 'Ok', [tx.sent])])
+        if getattr(tx, 'dropped', False): return Enum('Poll', 'Ready', [Enum('Result', 'Err', [Opaque('RecvError')])])
+        return Enum('Poll', 'Pending')
 
 
 MODELS[:0] = [
@@ -212,6 +217,7 @@ def _callable(ex, f, args):
     if len(segs) >= 2 and segs[-2] in ex.enums and segs[-1] in ex.enums[segs[-2]]: return Enum(segs[-2], segs[-1], args)
     fn = ex.fns.get(what) or ex.resolve(ex.callee_key(what))
     if fn is not None: return ex.run(fn, args)
+    if what: return ex.call(what, args)          # a library function with a callee model
     raise Unknown('cannot call function value %r' % (what,))
 def m_opt_map_or(ex, a, t):
     o, default, f = a
